@@ -1485,12 +1485,19 @@ Error Assembler::_emit(InstId inst_id, const Operand_& o0, const Operand_& o1, c
 
         bool has_sp = o0.as<Gp>().is_sp() || o1.as<Gp>().is_sp();
 
+        // CMN|CMP (register) - Rm can never be SP.
+        if (!check_gp_id(o1, kZR))
+          goto InvalidPhysId;
+
         // Shift operation - LSL, LSR, ASR.
         if (shift_type <= uint32_t(ShiftOp::kASR)) {
           if (!has_sp) {
             if (!check_signature(o0, o1)) {
               goto InvalidInstruction;
             }
+
+            if (!check_gp_id(o0, kZR))
+              goto InvalidPhysId;
 
             if (shift_value >= op_size) {
               goto InvalidImmediate;
